@@ -203,10 +203,11 @@ def _no_write_authority(node):
     return None
 
 
-def h_ro_transitive(sel: int, via_ro: bool, mdmf_parent: bool) -> bool:
+def h_ro_transitive(sel: int, via_ro: bool, mdmf_parent: bool, warm: bool) -> bool:
     """
     pre: 0 <= sel < len(F.LABELS)
     pre: B.get("sel") is None or sel in B["sel"]
+    pre: via_ro or not warm
     post: _ == True
     """
     label = pick(F.LABELS, sel)
@@ -218,7 +219,14 @@ def h_ro_transitive(sel: int, via_ro: bool, mdmf_parent: bool) -> bool:
     packed = D.pack_children({"c": (child, {})}, parent_rw._node.get_writekey())
     if rw is not None and rw in packed:
         return "child write cap appears in the directory plaintext"
-    nm2 = F.make_nodemaker()
+    if warm:
+        # the same client (one NodeMaker, node cache warm) first lists the directory through the write cap, then through the read cap
+        nm2 = nm
+        kept = parent_rw._unpack_contents(packed)
+        if kept["c"][0].get_write_uri() != rw:
+            return "write-cap holder does not recover the child's write cap"
+    else:
+        nm2 = F.make_nodemaker()
     reader = nm2.create_from_cap(None, pw.get_readonly().to_string()) if via_ro else nm2.create_from_cap(pw.to_string())
     if reader.is_readonly() != via_ro:
         return "reader's read-only-ness"
